@@ -36,6 +36,10 @@ ACCEPTING = {"built", "conv", "valid", "other", "nonnull", "param", "deleg", "sc
 _BUILDER_ENTRIES = {"build", "property_from_data"}   # what hands a schema / a default on to (another) builder
 _COPIES = {"model_copy", "copy", "deepcopy", "evolve", "replace"}   # X.model_copy(...), evolve(X, ...), copy(X): X again, with overrides
 _SAME_ELEMENTS = {"iter", "list", "tuple", "set", "frozenset", "sorted", "reversed", "chain", "enumerate"}   # iterating the result yields the argument's elements
+_ORDER_KEPT = {"list", "tuple", "iter", "chain", "deque"}      # iterating the result yields the argument's elements, all of them, in its order
+_ORDER_LOST = {"sorted", "reversed", "set", "frozenset", "shuffle", "sample", "islice", "takewhile", "dropwhile", "filterfalse", "Counter",
+               "nlargest", "nsmallest"}
+_REORDER_IN_PLACE = {"sort", "reverse", "remove", "pop", "clear"}
 _PREDICATES = {"isinstance", "issubclass", "callable", "hasattr", "all", "any", "bool"}   # builtins whose result is a truth value
 
 
@@ -69,7 +73,7 @@ _PREDICATES = {"isinstance", "issubclass", "callable", "hasattr", "all", "any", 
 # conditional expression; narrowed by `is` / `==` / `in` / issubclass tests), means (the choice `a or b` / field / name it was bound to).
 
 class PState:
-    __slots__ = ("kind", "taint", "facts", "tfacts", "hist", "ev", "errs", "oks", "alias", "nul", "cond", "elems", "classes", "means")
+    __slots__ = ("kind", "taint", "facts", "tfacts", "hist", "ev", "errs", "oks", "alias", "nul", "cond", "elems", "classes", "means", "inst", "seq", "elemof")
 
     def __init__(self) -> None:
         self.kind: dict[str, tuple[str, int | None]] = {}
@@ -87,6 +91,12 @@ class PState:
         #                                             expression, a comprehension, a display, a call of a generator of the region)
         self.classes: dict[str, frozenset[str]] = {}   # local -> the classes / bound builders (`K`, `K.build`) it may be
         self.means: dict[str, ast.expr] = {}        # local -> the choice it was bound to (`a or b`, a field, another name): it stands for it
+        self.inst: dict[str, str] = {}              # local -> what it was made as: the class of the repository whose constructor call it
+        #                                             was bound to, `tuple` for a tuple display
+        # where a sequence comes from: (the field / parameter it was derived from, None when it holds all of that one's elements in
+        # that one's order | how it was re-ordered or thinned out)
+        self.seq: dict[str, tuple[str, str | None]] = {}      # local -> where the sequence it holds comes from
+        self.elemof: dict[str, tuple[str, str | None]] = {}   # local -> where the sequence comes from that it is an element of
 
     def copy(self) -> "PState":
         s = PState()
@@ -104,13 +114,17 @@ class PState:
         s.elems = dict(self.elems)
         s.classes = dict(self.classes)
         s.means = dict(self.means)
+        s.inst = dict(self.inst)
+        s.seq = dict(self.seq)
+        s.elemof = dict(self.elemof)
         return s
 
     def key(self) -> tuple:
         return (tuple(sorted(self.kind.items(), key=lambda kv: kv[0])), self.taint, tuple(sorted(self.facts.items())), self.tfacts,
                 self.hist, self.ev, self.errs, self.oks, self.alias, self.nul,
                 tuple(sorted((n, t) for n, (t, _) in self.cond.items())), tuple(sorted((n, id(e)) for n, e in self.elems.items())),
-                tuple(sorted(self.classes.items())), tuple(sorted((n, id(e)) for n, e in self.means.items())))
+                tuple(sorted(self.classes.items())), tuple(sorted((n, id(e)) for n, e in self.means.items())),
+                tuple(sorted(self.inst.items())), tuple(sorted(self.seq.items(), key=str)), tuple(sorted(self.elemof.items(), key=str)))
 
     def said(self, text: str, truth: bool) -> bool:
         return (text, truth) in self.hist
@@ -374,6 +388,8 @@ class Paths:
         # builder call -> (node, {(default handed on?, parameter, argument, builder when the receiver is computed | None)})
         self.delegs: dict[int, tuple[ast.Call, set[tuple[bool, str, str, str | None]]]] = {}
         self.sites: dict[int, tuple[ast.Call, bool]] = {}    # conversion call -> (node, argument derived from the source?)
+        # conversion call whose receiver is an element of a sequence -> where that sequence comes from, per way the call was walked
+        self.offered: dict[int, set[tuple[str, str | None]]] = {}
         self.walked: dict[int, list[ast.Call]] = {}          # conversion call -> the call as it was walked (in a helper: in the
         #                                                      caller's names where parameters were bound to plain names)
         self.records: list[tuple[ast.stmt | None, PState]] = []  # (simple statement | None = end of function, state before it)
@@ -418,6 +434,11 @@ class Paths:
             m = self.mark(e)
             if m is not None:
                 return (m, None)
+        if isinstance(e, ast.Tuple) and e.elts and not isinstance(e.elts[0], ast.Starred):
+            # a result pair (<what was built | an error>, schemas) is, like what a builder call returns, what its first element is
+            k = self.kind_of(e.elts[0], st)
+            if k[0] in ("deleg", "error"):
+                return k
         if isinstance(e, ast.Constant) or isinstance(e, (ast.JoinedStr, ast.Tuple, ast.List, ast.Dict, ast.Set)):
             return ("nonnull", None)
         if isinstance(e, ast.Name):
@@ -564,6 +585,8 @@ class Paths:
         self.sites[k] = (self.origin(c), self.sites.get(k, (c, False))[1] or (bool(c.args) and self.derived(c.args[0], st)))
         if isinstance(c.func, ast.Attribute):
             self.receivers.setdefault(k, set()).add(self.kind_of(c.func.value, st)[0])
+            if isinstance(c.func.value, ast.Name) and c.func.value.id in st.elemof:
+                self.offered.setdefault(k, set()).add(st.elemof[c.func.value.id])
         return k
 
     def returned(self, st_node: ast.stmt | None, st: PState) -> tuple[str, int | None]:
@@ -726,6 +749,12 @@ class Paths:
             s = s.copy()
             self._assign_target(s, n.target, ("other", None), self.derived(n.value, s) or self.derived(n.target, s))
             return [s]
+        if isinstance(n, ast.Expr) and isinstance(n.value, ast.Call) and isinstance(n.value.func, ast.Attribute) and isinstance(
+                n.value.func.value, ast.Name) and n.value.func.value.id in s.seq and n.value.func.attr in _REORDER_IN_PLACE:
+            s = s.copy()     # xs.sort(...) / xs.reverse() / xs.remove(...): the same elements no longer, or in another order
+            base, why = s.seq[n.value.func.value.id]
+            s.seq[n.value.func.value.id] = (base, why or f".{n.value.func.attr}(...)")
+            return [s]
         return [s]
 
     # -- helpers walked in place ----------------------------------------------------------------------------------------------------
@@ -804,11 +833,12 @@ class Paths:
         """the state in which a helper walked in place starts: its parameters hold what the arguments are in the caller's state"""
         s = s.copy()
         vals = [(nm, (self.kind_of(arg, s), self.derived(arg, s), self._is_alias(arg, s)) if arg is not None else (("other", None), False, False),
-                 self._decision(arg, s), arg, self.classes_of(arg, s), self._elems_expr(arg, s)) for nm, arg in binds]
-        for nm, (k, d, al), dec, arg, cl, el in vals:
+                 self._decision(arg, s), arg, self.classes_of(arg, s), self._elems_expr(arg, s),
+                 self._domain(arg, s) if arg is not None else None, self._element_of(arg, s)) for nm, arg in binds]
+        for nm, (k, d, al), dec, arg, cl, el, dom, eo in vals:
             self._bind(s, nm, k, d, al)
             self._note(s, nm, dec, {nm})
-            self._remember(s, nm, arg, cl, el)
+            self._remember(s, nm, arg, cl, el, dom, eo)
         return s
 
     # -- decisions that were given a name ------------------------------------------------------------------------------------------
@@ -869,6 +899,7 @@ class Paths:
                 if elems is None:
                     b = h.copy()
                     self._assign_target(b, n.target, ("other", None), self.derived(n.iter, b))
+                    self._element(b, n.target, n.iter, h)
                     body_in = [b]
                 else:     # what the loop variable holds is written in the source: the body runs with `target = <element>`
                     body_in = []
@@ -918,6 +949,7 @@ class Paths:
                     if inner is None:
                         b = x.copy()
                         self._assign_target(b, g.target, ("other", None), self.derived(g.iter, b))
+                        self._element(b, g.target, g.iter, x)
                         got = [b]
                     else:
                         got = []
@@ -930,6 +962,12 @@ class Paths:
                                 got += self._assign(s2, [g.target], el)
                     for cond in g.ifs:
                         got = [y for z in got for y in self._branch(cond, z)[0]]
+                    if g.ifs or isinstance(it, ast.SetComp):     # the elements that come through are not all of them / in no order
+                        why = f"only those with `{norm(g.ifs[0])[:50]}`" if g.ifs else "a set has no order"
+                        for y in got:
+                            for nm in [t.id for t in ast.walk(g.target) if isinstance(t, ast.Name)]:
+                                if nm in y.elemof and y.elemof[nm][1] is None:
+                                    y.elemof[nm] = (y.elemof[nm][0], why)
                     nxt += got
                 cur = _dedupe(nxt)
             return [(x, it.elt) for x in cur]
@@ -1022,6 +1060,7 @@ class Paths:
         al = self._is_alias(value, s)
         dec = self._decision(value, s)
         cl, el = self.classes_of(value, s), self._elems_expr(value, s)
+        dom, eo = self._domain(value, s, plain=False), self._element_of(value, s)
         s = s.copy()
         for t_ in targets:
             self._assign_target(s, t_, k, d, al)
@@ -1029,7 +1068,7 @@ class Paths:
         for t_ in targets:
             if isinstance(t_, ast.Name):
                 self._note(s, t_.id, dec, bound)
-                self._remember(s, t_.id, value, cl, el)
+                self._remember(s, t_.id, value, cl, el, dom, eo)
         return [s]
 
     def _next_alts(self, value: ast.expr | None, s: PState) -> list[tuple[PState, ast.expr]] | None:
@@ -1083,6 +1122,9 @@ class Paths:
         for nm in [nm for nm, e in s.elems.items() if nm == name or name in self._elem_names(e)]:
             del s.elems[nm]
         s.classes.pop(name, None)
+        s.inst.pop(name, None)
+        s.seq.pop(name, None)
+        s.elemof.pop(name, None)
         for nm in [nm for nm, e in s.means.items() if nm == name or name in self._elem_names(e)]:
             del s.means[nm]
 
@@ -1093,15 +1135,123 @@ class Paths:
             self._names[k] = names_in(e) - own
         return self._names[k]
 
-    def _remember(self, s: PState, name: str, value: ast.expr | None, classes: frozenset[str] | None, elems: ast.expr | None) -> None:
-        """after `name` was bound to value: what iterating it yields, which classes it may be"""
+    def _remember(self, s: PState, name: str, value: ast.expr | None, classes: frozenset[str] | None, elems: ast.expr | None,
+                  dom: tuple[str, str | None] | None = None, eo: tuple[str, str | None] | None = None) -> None:
+        """after `name` was bound to value: what iterating it yields, which classes it may be, where the sequence comes from that it
+        holds / that it is an element of"""
+        if dom is not None:
+            s.seq[name] = dom
+        if eo is not None:
+            s.elemof[name] = eo
         if elems is not None and name not in self._elem_names(elems):
             s.elems[name] = elems
         if classes:
             s.classes[name] = classes
+        made = self._made_as(value, s)
+        if made is not None:
+            s.inst[name] = made
         if isinstance(value, (ast.BoolOp, ast.Attribute, ast.Name, ast.Dict)) and name not in self._elem_names(value) and not any(
                 isinstance(x, (ast.Call, ast.NamedExpr, ast.Await)) for x in ast.walk(value)):
             s.means[name] = value
+
+    def _domain(self, e: ast.expr | None, s: PState, depth: int = 0, plain: bool = True) -> tuple[str, str | None] | None:
+        """where the sequence e comes from: (the field / parameter it is derived from, None when iterating e yields all of that one's
+        elements in that one's order | how it was re-ordered or thinned out); None: e is not known to be derived from one.
+        plain=False: a bare field / parameter is not reported (a name bound to it merely stands for it: `means`)"""
+        if e is None or depth > 6:
+            return None
+        if isinstance(e, ast.Name):
+            if e.id in s.seq:
+                return s.seq[e.id]
+            if e.id in s.means:
+                return self._domain(s.means[e.id], s, depth + 1)
+            return (e.id, None) if plain and s.kind.get(e.id, ("other", None))[0] == "param" and e.id in self.params else None
+        if isinstance(e, ast.Attribute):
+            return (norm(e), None) if plain and not any(isinstance(x, (ast.Call, ast.Subscript)) for x in ast.walk(e)) else None
+        if isinstance(e, ast.BoolOp) and isinstance(e.op, ast.Or):     # X or []
+            return self._domain(e.values[0], s, depth + 1)
+        if isinstance(e, ast.Subscript) and isinstance(e.slice, ast.Slice):
+            d = self._domain(e.value, s, depth + 1)
+            if d is None or d[1] is not None:
+                return d
+            sl = e.slice
+            whole = (sl.lower is None or (isinstance(sl.lower, ast.Constant) and sl.lower.value in (0, None))) and sl.upper is None
+            fwd = sl.step is None or (isinstance(sl.step, ast.Constant) and sl.step.value in (1, None))
+            return d if whole and fwd else (d[0], f"the slice `{norm(e)[:50]}`")
+        if isinstance(e, ast.BinOp) and isinstance(e.op, ast.Add):     # a + b: what either was made of says how it was thinned out
+            ds = [self._domain(x, s, depth + 1) for x in (e.left, e.right)]
+            return next((d for d in ds if d is not None and d[1] is not None), None)
+        if isinstance(e, (ast.ListComp, ast.GeneratorExp, ast.SetComp)) and len(e.generators) == 1:
+            g = e.generators[0]
+            d = self._domain(g.iter, s, depth + 1)
+            if d is None or not (isinstance(g.target, ast.Name) and isinstance(e.elt, ast.Name) and e.elt.id == g.target.id):
+                return None
+            if d[1] is None and g.ifs:
+                return (d[0], f"only those with `{norm(g.ifs[0])[:50]}`")
+            return (d[0], "a set has no order") if d[1] is None and isinstance(e, ast.SetComp) else d
+        if isinstance(e, ast.Call):
+            last = call_name(e).rsplit(".", 1)[-1]
+            if last == "cast" and len(e.args) == 2:
+                return self._domain(e.args[1], s, depth + 1)
+            if last == "copy" and isinstance(e.func, ast.Attribute) and not e.args:
+                return self._domain(e.func.value, s, depth + 1)
+            if last == "filter" and len(e.args) == 2:
+                d = self._domain(e.args[1], s, depth + 1)
+                return (d[0], d[1] or f"only those with `{norm(e.args[0])[:50]}`") if d is not None else None
+            if e.args and (last in _ORDER_KEPT or last in _ORDER_LOST) and (last != "chain" or len(e.args) == 1):
+                d = self._domain(e.args[0], s, depth + 1)
+                if d is None or d[1] is not None or last in _ORDER_KEPT:
+                    return d
+                return (d[0], f"`{norm(e)[:60]}`")
+        return None
+
+    def _element_of(self, e: ast.expr | None, s: PState) -> tuple[str, str | None] | None:
+        """where the sequence comes from that e is an element of: a name that is one, next(<sequence>[, d])"""
+        if isinstance(e, ast.Name):
+            return s.elemof.get(e.id)
+        if isinstance(e, ast.Call) and call_name(e) == "next" and 1 <= len(e.args) <= 2:
+            return self._domain(e.args[0], s)
+        return None
+
+    def _element(self, s: PState, target: ast.expr, it: ast.expr, at: PState) -> None:
+        """`for target in it`, the elements of `it` not being written in the source: target is an element of where `it` (in the state
+        `at` the loop is entered in) comes from; of enumerate(X): the second of the pair is an element of X"""
+        if isinstance(it, ast.Call) and call_name(it) == "enumerate" and it.args and isinstance(target, (ast.Tuple, ast.List)) and len(target.elts) == 2:
+            target, it = target.elts[1], it.args[0]
+        if isinstance(target, ast.Name):
+            d = self._domain(it, at)
+            if d is not None:
+                s.elemof[target.id] = d
+
+    def _made_as(self, e: ast.expr | None, s: PState) -> str | None:
+        """what e is an instance of by construction: `K(...)` with K a class of the repository is a K, a tuple display is a tuple (and
+        nothing more special), a local bound to one of these is that"""
+        if isinstance(e, ast.Call) and call_name(e).rsplit(".", 1)[-1] == "cast" and len(e.args) == 2:
+            e = e.args[1]
+        if isinstance(e, ast.Name):
+            return s.inst.get(e.id)
+        if isinstance(e, ast.Tuple):
+            return "tuple"
+        if isinstance(e, ast.Call) and self.world is not None and isinstance(e.func, (ast.Name, ast.Attribute)):
+            cn = call_name(e)
+            if all(x.isidentifier() for x in cn.split(".")) and not (isinstance(e.func, ast.Name) and e.func.id in s.kind):
+                k = self.world.cls(cn)
+                return k.name if k is not None else None
+        return None
+
+    def _instance_verdict(self, made: str, tn: list[str]) -> bool | None:
+        """is something made as `made` an instance of one of the types named tn (None: not known)"""
+        verdicts: list[bool | None] = []
+        for t in tn:
+            if t == "object" or t == made:
+                verdicts.append(True)
+            elif made == "tuple":     # exactly a tuple: of no other builtin type, of no class
+                verdicts.append(False if t in _BUILTIN_EXT or self.world is not None and self.world.cls(t) is not None else None)
+            else:
+                verdicts.append(self.world.subclass(made, t) if self.world is not None and self.world.cls(t) is not None else None)
+        if any(v is True for v in verdicts):
+            return True
+        return False if verdicts and all(v is False for v in verdicts) else None
 
     def meaning(self, e: ast.expr, s: PState, depth: int = 0) -> ast.expr:
         """e with the locals that merely stand for a choice between values (x = a or b; x = obj.field; x = y) replaced by that choice:
@@ -1245,6 +1395,9 @@ class Paths:
             else:
                 if truth and tag == "none" and "object" not in tn and "NoneType" not in tn:
                     return None
+                made = self._made_as(subj, s) if isinstance(subj, ast.Name) else None
+                if made is not None and self._instance_verdict(made, tn) not in (None, truth):
+                    return None     # what the local was made as answers the test: the other answer is no path
                 if truth and tag == "param" and tn == ["Value"]:
                     s.kind[subj.id] = ("passed", None)
                 if truth and tn == ["Value"] and isinstance(subj, ast.Name) and subj.id in s.alias:
@@ -1437,6 +1590,12 @@ def run(rep: Report, ctx: Any) -> str:
                       "reaches every _merge_common_attributes call as the last override (roles followed through the calls of the merge "
                       "module), overrides are applied in argument order and the override's converted default is preferred")
 
+    rep.rule("R13.10", "a kind whose convert_value asks the properties held in one of its own fields (a union its members) asks them as they "
+                       "are declared: the sequence whose elements' convert_value is called with the value is that field itself or a "
+                       "derivation that keeps all its elements in their order (list / tuple / iter / enumerate / a comprehension without a "
+                       "condition / a full slice; through locals, helper parameters and helper results) - never a sorted, reversed, "
+                       "filtered, sliced or set copy: the first member that accepts decides the type of the emitted default, and several "
+                       "members may accept the same value (a string member accepts anything)")
     rep.rule("R13.8", "a property's default is given when the object is made (constructor / evolve keyword): wherever the package writes "
                       "`default` of a property in place (attribute store, setattr / object.__setattr__, __dict__), the object is one the "
                       "function made itself on every path to the write (followed through locals, helper parameters and helper results) - "
@@ -1557,6 +1716,7 @@ def run(rep: Report, ctx: Any) -> str:
 
     # ---- R13.2 -------------------------------------------------------------------------------------------------------------
     n_c = 0
+    asked: dict[tuple[str, str], list[tuple[Any, ast.Call, str | None]]] = {}     # R13.10: (convert_value, field of members) -> conversions
     for c in props:
         cv = c.methods.get("convert_value")
         if cv is None or c.name in PERMISSIVE:
@@ -1566,6 +1726,11 @@ def run(rep: Report, ctx: Any) -> str:
         pname = _value_param(cv)
         rep.require(pname, f"value parameter of {key}")
         pp = Paths(cv.node, tainted={pname}, subject=pname, helpers=_helpers_of(ix, cv))
+        for k, doms in pp.offered.items():
+            if pp.sites[k][1]:     # the value under conversion is what the member is asked about
+                for base, why in doms:
+                    if base.startswith("self."):
+                        asked.setdefault((key, base), []).append((cv, pp.sites[k][0], why))
         rets = [(n, s, pp.returned(n, s)) for n, s in pp.returns()]
         if c.name in ("ListProperty",):
             rep.check(all(k[0] == "none" for _, _, k in rets), "R13.2", key + "::no-default-kind", "a list default is turned into code",
@@ -1599,6 +1764,15 @@ def run(rep: Report, ctx: Any) -> str:
             rep.check(all(int_ok), "R13.2", key + "::bool-excluded", "booleans are accepted where an integer is expected (True == 1)",
                       where(cv, cv.node), lhs=f"{sum(int_ok)}/{len(int_ok)} accepting int paths exclude bool", rhs="and not isinstance(value, bool)")
     rep.floor("typed_convert_value", n_c, 7)
+    # ---- R13.10 ------------------------------------------------------------------------------------------------------------
+    for (key, base), found in sorted(asked.items()):
+        bad = sorted({why for _, _, why in found if why is not None})
+        cv, call, _ = next((x for x in found if x[2] is not None), found[0])
+        rep.check(not bad, "R13.10", f"{key}::members-as-declared[{base}]",
+                  f"the members that are asked to convert the default are not {base} as it stands ({'; '.join(bad)}): which member accepts "
+                  "first decides the type of the emitted default, and several may accept the same value", where(cv, call),
+                  lhs=bad or f"{len(found)} conversion(s) by the elements of {base}", rhs=f"for <member> in {base} (all of them, in that order)")
+    rep.floor("conversions_delegated_to_members", len(asked), 1)
     # const: acceptance compares converted Values (typed comparison), never raw values.  The comparison with the property's `value`
     # field is looked for in convert_value and the private helpers of its region.
     const_cls = ix.cls("ConstProperty")
